@@ -124,12 +124,18 @@ pub fn gen_case(r: &mut Prng, big: bool) -> Case {
             case.handlers[target].actions.push(inner);
         }
     }
-    // move the evaluation into simulated thread 0 (= task 1); registrations stay in `pre`
-    let eval = case.pre.pop().unwrap();
-    case.threads.push(vec![eval]);
-    if r.chance(1, 3) {
-        let b = bystander(r, &mut case);
-        case.threads.push(b);
+    if r.chance(1, 4) {
+        // the faulted evaluation stays on the main task: the follow-up then runs on the SAME thread
+        // (whatever a failed evaluation leaves behind in its own thread shows there)
+        case.tag = "C15-same-thread".into();
+    } else {
+        // move the evaluation into simulated thread 0 (= task 1); registrations stay in `pre`
+        let eval = case.pre.pop().unwrap();
+        case.threads.push(vec![eval]);
+        if r.chance(1, 3) {
+            let b = bystander(r, &mut case);
+            case.threads.push(b);
+        }
     }
     follow_up(r, &mut case);
     case
@@ -324,22 +330,34 @@ impl Prop for C15 {
             }
             Judged::Violated(c, d) => return vec![violation("C15", &c, d, seed, idx, &base, &out0)],
         };
-        // handler invocations made by the evaluating thread (task 1) during the evaluation itself
-        let n = {
+        // handler invocations made by the evaluating task during the evaluation itself
+        let (eval_op, eval_task) = if base.threads.is_empty() { (OpId::Pre(base.pre.len() - 1), 0usize) } else { (OpId::Thr(0, 0), 1usize) };
+        let (n, k0) = {
             let mut n = 0;
+            let mut before = 0;
             let mut inside = false;
+            let mut seen_eval = false;
             for e in &m.log {
                 match e {
-                    Ev::Inv { op: OpId::Thr(0, 0), .. } => inside = true,
-                    Ev::Ret { op: OpId::Thr(0, 0), .. } => inside = false,
-                    Ev::H { task: 1, .. } if inside => n += 1,
+                    Ev::Inv { op, .. } if *op == eval_op => {
+                        inside = true;
+                        seen_eval = true;
+                    }
+                    Ev::Ret { op, .. } if *op == eval_op => inside = false,
+                    Ev::H { task, .. } if *task == eval_task => {
+                        if inside {
+                            n += 1;
+                        } else if !seen_eval {
+                            before += 1;
+                        }
+                    }
                     _ => {}
                 }
             }
-            n
+            (n, before)
         };
         rt.sample(json!({
-            "program": match &base.threads[0][0] { Op::Exec{prog,..} | Op::ParseExec{prog,..} => prog.text(), _ => String::new() },
+            "program": match base.threads.first().map(|t| &t[0]).or(base.pre.last()) { Some(Op::Exec{prog,..}) | Some(Op::ParseExec{prog,..}) => prog.text(), _ => String::new() },
             "context": format!("{:?}", base.slots[0]),
             "bystander": base.threads.get(1).map(|t| t.iter().map(crate::props::c13::show_op).collect::<Vec<_>>()),
             "follow_up": base.post.iter().map(crate::props::c13::show_op).collect::<Vec<_>>(),
@@ -349,7 +367,7 @@ impl Prop for C15 {
         for k in 0..n {
             for kind in [FaultKind::Err, FaultKind::Panic] {
                 let mut c = (*base).clone();
-                c.fault = Some(Fault::once(1, k, kind));
+                c.fault = Some(Fault::once(eval_task, k0 + k, kind));
                 let c = Arc::new(c);
                 for spec in &specs {
                     let out = rt.sim(&c, spec);
